@@ -60,6 +60,7 @@ func genStandard(env *Env, prop string, opaque bool, extra func(ex *symex.Exec, 
 				ex := symex.NewExec(env.Prog, env.CS, env.Tables)
 				ex.OpaqueStrings = opaque
 				ex.FuncTables = env.FuncTables
+				ex.RegexpSubexp = env.RegexpSubexp
 				ex.SetPrefix("")
 				handled := fc.Flags["trusted"] || fc.Flags["inline"]
 				if extra != nil {
@@ -194,6 +195,21 @@ func init() {
 			g := genStandard(env, "C16", true, nil)
 			g.Unverified = []string{
 				"path generalisation (regResolveLogs, 60 regexes) still matching the recorded name under the shipped tunables",
+			}
+			return g
+		},
+	})
+}
+
+func init() {
+	Register(&Property{
+		ID:       "C13",
+		Packages: []string{"pkg/aa"},
+		Generate: func(env *Env) *Gen {
+			g := genStandard(env, "C13", true, nil)
+			g.Unverified = []string{
+				"that substitution yields all combinations of the referenced values and agrees with apparmor_parser (string rewriting through regexp and strings.ReplaceAll)",
+				"that the values appended with += end up, in order, in the definition (only that the += rule is the one removed is covered through the conservation obligations)",
 			}
 			return g
 		},
